@@ -47,7 +47,14 @@ type solveOut struct {
 	secs   float64
 }
 
+var procSem = make(chan struct{}, 28)
+
 func runSolver(ctx context.Context, sc SolverCfg, script string, ms int, quant bool, wantModel bool) solveOut {
+	procSem <- struct{}{}
+	defer func() { <-procSem }()
+	if ctx.Err() != nil {
+		return solveOut{solver: sc.Name, res: "unknown", out: "cancelled"}
+	}
 	start := time.Now()
 	args := sc.Cmd(ms, quant)
 	cctx, cancel := context.WithTimeout(ctx, time.Duration(ms+1500)*time.Millisecond)
@@ -171,44 +178,89 @@ func (tr *Tr) sliceAssumptions(o *Obligation, extra []*Term) []*Term {
 	return out
 }
 
+// sliceAll: every assumption visible to o plus its reach condition (vacuity probes use no slicing).
+func (tr *Tr) sliceAll(o *Obligation) []*Term {
+	var out []*Term
+	for _, a := range tr.assumes[:o.NAssume] {
+		out = append(out, a.T)
+	}
+	return append(out, o.Reach)
+}
+
 type solveOpts struct {
 	timeoutMs int
 	dumpDir   string
 	first     int // ms for the first, single-solver attempt
 }
 
-// prepare builds the SMT script of an obligation (sequential: the term factory is not thread-safe).
-func (tr *Tr) prepare(o *Obligation, opt solveOpts, extra []*Term) *Script {
-	asserts := tr.sliceAssumptions(o, extra)
-	sc := tr.f.Script(asserts, nil)
-	o.SmtSize = len(sc.Text)
-	if opt.dumpDir != "" {
-		_ = os.WriteFile(fmt.Sprintf("%s/%s__%s.smt2", opt.dumpDir, sanitize(funcDisplay(tr.top)), sanitize(o.Name)), []byte(sc.Text), 0o644)
-	}
-	return sc
+// prepare builds the SMT scripts of an obligation (sequential: the term factory is not thread-safe).
+// Scripts[0] is the ground-instantiated query (quantifier-free when possible), Scripts[1] the full query when it differs.
+type prepared struct {
+	ground       *Script
+	full         *Script
+	instantiated bool
+	cases        []*Script // ground query under each declared case (discharged only if the plain query is undecided)
 }
 
-// discharge one obligation: first z3-new alone, then race all solvers.
-func discharge(o *Obligation, sc *Script, opt solveOpts) {
-	start := time.Now()
-	defer func() { o.Time = time.Since(start).Seconds() }()
+func (tr *Tr) prepare(o *Obligation, opt solveOpts, extra []*Term) *prepared {
+	asserts := tr.sliceAssumptions(o, extra)
+	g, inst, _ := tr.f.groundQuery(asserts)
+	p := &prepared{instantiated: inst}
+	p.ground = tr.f.Script(g, nil)
+	if inst {
+		p.full = tr.f.Script(asserts, nil)
+	}
+	o.SmtSize = len(p.ground.Text)
+	if extra == nil && o.Kind != "split-cover" {
+		for _, c := range tr.splitCases {
+			as2 := tr.sliceAssumptions(o, c)
+			// substitute the case values (lets the simplifier fold multiplications by a now-constant factor)
+			sub := map[*Term]*Term{}
+			for _, e := range c {
+				if e.Op == "=" && e.Args[1].IsConst() {
+					sub[e.Args[0]] = e.Args[1]
+				} else if e.Op == "=" && e.Args[0].IsConst() {
+					sub[e.Args[1]] = e.Args[0]
+				}
+			}
+			for i, a := range as2 {
+				keep := false
+				for _, e := range c {
+					if a == e {
+						keep = true
+					}
+				}
+				if !keep {
+					as2[i] = tr.f.Subst(a, sub)
+				}
+			}
+			g2, _, _ := tr.f.groundQuery(as2)
+			p.cases = append(p.cases, tr.f.Script(g2, nil))
+		}
+	}
+	if opt.dumpDir != "" {
+		base := fmt.Sprintf("%s/%s__%s", opt.dumpDir, sanitize(funcDisplay(tr.top)), sanitize(o.Name))
+		_ = os.WriteFile(base+".smt2", []byte(p.ground.Text), 0o644)
+		if p.full != nil {
+			_ = os.WriteFile(base+".full.smt2", []byte(p.full.Text), 0o644)
+		}
+		for i, c := range p.cases {
+			_ = os.WriteFile(fmt.Sprintf("%s.case%d.smt2", base, i), []byte(c.Text), 0o644)
+		}
+	}
+	return p
+}
+
+func raceSolvers(sc *Script, first, timeoutMs int) (solveOut, []solveOut) {
 	ctx := context.Background()
-	first := opt.first
-	if first <= 0 {
-		first = 2000
-	}
-	if first > opt.timeoutMs {
-		first = opt.timeoutMs
-	}
 	r := runSolver(ctx, solvers[0], sc.Text, first, sc.Quant, false)
 	tried := []solveOut{r}
-	if r.res != "unsat" && r.res != "sat" {
-		// race
+	if r.res != "unsat" && r.res != "sat" && timeoutMs > first {
 		cctx, cancel := context.WithCancel(ctx)
 		ch := make(chan solveOut, len(solvers))
 		for _, s := range solvers {
 			s := s
-			go func() { ch <- runSolver(cctx, s, sc.Text, opt.timeoutMs, sc.Quant, false) }()
+			go func() { ch <- runSolver(cctx, s, sc.Text, timeoutMs, sc.Quant, false) }()
 		}
 		got := 0
 		for got < len(solvers) {
@@ -222,6 +274,82 @@ func discharge(o *Obligation, sc *Script, opt solveOpts) {
 		}
 		cancel()
 	}
+	return r, tried
+}
+
+// discharge one obligation: ground query first (z3-new alone, then a race of all solvers); if that yields only a
+// candidate model, the full quantified query is raced as well.
+func discharge(o *Obligation, p *prepared, opt solveOpts) {
+	start := time.Now()
+	defer func() { o.Time = time.Since(start).Seconds() }()
+	first := opt.first
+	if first <= 0 {
+		first = 2000
+	}
+	if first > opt.timeoutMs {
+		first = opt.timeoutMs
+	}
+	var r solveOut
+	var tried []solveOut
+	if len(p.cases) == 0 {
+		r, tried = raceSolvers(p.ground, first, opt.timeoutMs)
+	} else {
+		r = solveOut{res: "unknown"}
+	}
+	modelScript := p.ground
+	if r.res != "unsat" && r.res != "sat" && len(p.cases) > 0 {
+		// case by case, in parallel
+		type caseRes struct {
+			i     int
+			r     solveOut
+			tried []solveOut
+		}
+		ch := make(chan caseRes, len(p.cases))
+		for i, cs := range p.cases {
+			go func(i int, cs *Script) {
+				rc, tc := raceSolvers(cs, first, opt.timeoutMs)
+				ch <- caseRes{i, rc, tc}
+			}(i, cs)
+		}
+		all := true
+		var worst *caseRes
+		for range p.cases {
+			cr := <-ch
+			if cr.r.res != "unsat" {
+				all = false
+				if worst == nil || (cr.r.res == "sat" && worst.r.res != "sat") {
+					c := cr
+					worst = &c
+				}
+			}
+		}
+		if all {
+			r = solveOut{res: "unsat", solver: fmt.Sprintf("z3-5.1.0 (case split into %d)", len(p.cases))}
+			tried = append(tried, r)
+		} else {
+			for j := range worst.tried {
+				worst.tried[j].solver += fmt.Sprintf(" (case %d/%d)", worst.i+1, len(p.cases))
+			}
+			tried = append(tried, worst.tried...)
+			r = worst.r
+			r.solver += fmt.Sprintf(" (case %d/%d)", worst.i+1, len(p.cases))
+			if r.res == "sat" {
+				modelScript = p.cases[worst.i]
+			}
+		}
+	}
+	if p.instantiated && r.res != "unsat" {
+		r2, tried2 := raceSolvers(p.full, first, opt.timeoutMs)
+		for i := range tried2 {
+			tried2[i].solver += " (quantified)"
+		}
+		tried = append(tried, tried2...)
+		if r2.res == "unsat" {
+			r = r2
+		} else if r.res == "sat" {
+			o.Candidate = true
+		}
+	}
 	var sb strings.Builder
 	for _, t := range tried {
 		fmt.Fprintf(&sb, "[%s %.2fs] %s\n", t.solver, t.secs, strings.TrimSpace(firstLines(t.out, 3)))
@@ -230,6 +358,9 @@ func discharge(o *Obligation, sc *Script, opt solveOpts) {
 	if r.res == "unsat" || r.res == "sat" {
 		o.Result = r.res
 		o.Solver = r.solver
+		if p.instantiated && r.res == "unsat" && !strings.Contains(r.solver, "quantified") {
+			o.Solver += " (ground-instantiated)"
+		}
 	} else {
 		o.Result = "unknown"
 		for _, t := range tried {
@@ -245,8 +376,8 @@ func discharge(o *Obligation, sc *Script, opt solveOpts) {
 	}
 	if o.Result == "sat" {
 		for _, s := range solvers {
-			if s.Name == o.Solver {
-				o.Model = getModel(s, sc.Text, sc.Vars, opt.timeoutMs, sc.Quant)
+			if strings.HasPrefix(o.Solver, s.Name) {
+				o.Model = getModel(s, modelScript.Text, modelScript.Vars, opt.timeoutMs, modelScript.Quant)
 			}
 		}
 	}
@@ -264,7 +395,7 @@ func firstLines(s string, n int) string {
 func dischargeAll(res *FnResult, opt solveOpts, sem chan struct{}) {
 	var wg sync.WaitGroup
 	start := time.Now()
-	scripts := make([]*Script, len(res.Obls))
+	scripts := make([]*prepared, len(res.Obls))
 	for i, o := range res.Obls {
 		if o.Result != "" {
 			continue
@@ -277,11 +408,30 @@ func dischargeAll(res *FnResult, opt solveOpts, sem chan struct{}) {
 		}
 		wg.Add(1)
 		sem <- struct{}{}
-		go func(o *Obligation, sc *Script) {
+		go func(o *Obligation, sc *prepared) {
 			defer wg.Done()
 			defer func() { <-sem }()
 			discharge(o, sc, opt)
 		}(o, scripts[i])
+	}
+	// vacuity probes: a probe must be satisfiable
+	pps := make([]*prepared, len(res.Probes))
+	for i, o := range res.Probes {
+		asserts := res.tr.sliceAll(o)
+		g, _, _ := res.tr.f.groundQuery(asserts)
+		pps[i] = &prepared{ground: res.tr.f.Script(g, nil)}
+	}
+	for i, o := range res.Probes {
+		wg.Add(1)
+		sem <- struct{}{}
+		go func(o *Obligation, p *prepared) {
+			defer wg.Done()
+			defer func() { <-sem }()
+			r, _ := raceSolvers(p.ground, 3000, opt.timeoutMs)
+			o.Result = r.res
+			o.Solver = r.solver
+			o.Time = r.secs
+		}(o, pps[i])
 	}
 	wg.Wait()
 	res.SolveTime = time.Since(start).Seconds()
